@@ -516,17 +516,26 @@ func (h *vcHist) snapshot(outcome int) {
 	s.cleanSnapshotPath = filepath.Join(h.e.root, "clean_snapshot")
 	if perr != nil {
 		sink.Cancel()
+		// OnRelease asks for a full snapshot after a failed Persist when there is no staging
+		// directory; with one (WAL files retained from earlier attempts) it does not
+		_, serr := os.Stat(s.walStagingDir)
 		fsnap.Release()
-		h.fullForgotten = h.fullForgotten || unflaggedFull
+		h.fullForgotten = h.fullForgotten || (unflaggedFull && serr == nil)
 		gate := outcome == vcLoadRace && fs.Type.IsIncremental()
 		verifAssert("C04-persist-fails-only-when-injected", outcome == vcPersistFail || gate)
 		if fs.Type.IsIncremental() {
 			verifReach("persist-failed-incremental")
+			if gate {
+				verifReach("load-raced-incremental")
+			}
+		} else {
+			verifReach("persist-failed-full")
 		}
 		return
 	}
 	verifAssert("C04-persist-succeeds-unless-injected", outcome != vcPersistFail)
 	if outcome == vcDieAtClose {
+		verifReach("died-before-close")
 		h.restart()
 		return
 	}
@@ -536,6 +545,9 @@ func (h *vcHist) snapshot(outcome int) {
 	if fs.Type.IsFull() {
 		h.fullForgotten = false
 		verifReach("full-published")
+		if outcome == vcLoadRace {
+			verifReach("load-raced-full")
+		}
 	} else {
 		verifReach("incremental-published")
 	}
@@ -578,6 +590,9 @@ func (h *vcHist) checkNewest(tag string, wantIdx uint64) (vcState, uint64, bool)
 	}
 	if len(walFiles) >= 2 && !stale {
 		verifReach("chain-of-two-wals")
+	}
+	if len(walFiles) >= 3 && !stale {
+		verifReach("chain-of-three-wals")
 	}
 	if stale {
 		// Recorded defect: a staged WAL file retained after a skipped / failed Persist is still in
@@ -706,6 +721,33 @@ var vcPrefixes = [][]int{
 	{stW0, stSnapOK, stW0, stSnapSkip, stLoad},               // ... and a LOAD
 	{stW0, stSnapOK, stW1, stSnapOK, stW0},                   // full + incremental + unsnapshotted write
 	{stW0, stSnapOK, stW0, stSnapPersistFail, stW0, stTouch}, // retained after a failed Persist, newer write, file touched
+	{stW0, stSnapOK, stW0, stTouch},                          // unsnapshotted write, file touched, nothing staged
+}
+
+// Hand-picked histories (each ends with a restart): cheap regression scenarios for the quick tier;
+// the exhaustive entries cover them again in the thorough tier.
+var vcScenarios = [][]int{
+	// a full snapshot (due to dbModified only, nothing staged) whose Persist fails must be taken again
+	{stW0, stSnapOK, stW0, stTouch, stSnapPersistFail, stW1, stSnapOK},
+	// retained WAL files of two failed attempts travel with the third, in order
+	{stW0, stSnapOK, stW0, stSnapSkip, stW1, stSnapPersistFail, stW0, stSnapOK},
+	// a busy checkpoint leaves nothing behind, the retry publishes
+	{stW0, stSnapOK, stW1, stSnapCkBusy, stSnapOK, stW0, stSnapOK},
+	// LOAD, restart before any snapshot (the LOAD is replayed from the log), write, snapshot
+	{stW0, stSnapOK, stLoad, stRestart, stW1, stSnapOK, stW0, stSnapOK},
+	// a LOAD applied while an incremental snapshot is being persisted
+	{stW0, stSnapOK, stW0, stSnapLoadRace, stW1, stSnapOK, stW0, stSnapOK},
+	// a LOAD applied while a full snapshot is being persisted
+	{stW0, stSnapLoadRace, stW1, stSnapOK, stW0, stSnapOK},
+	// the process dies before the sink of an incremental snapshot is closed
+	{stW0, stSnapOK, stW1, stSnapDie, stW0, stSnapOK},
+	// skipped full snapshot on a new node, then the real one
+	{stW0, stSnapSkip, stW1, stSnapOK, stW0, stSnapOK},
+}
+
+func VerifC04Scenarios() {
+	i := verifChoice("scenario", len(vcScenarios))
+	vcRun(vcScenarios[i], 0, 1)
 }
 
 func vcRun(prefix []int, k int, kinds int) {
@@ -722,21 +764,28 @@ func vcRun(prefix []int, k int, kinds int) {
 	h.restart()
 }
 
-// VerifC04History: every history of K free steps from every start state.
+// VerifC04History: every history of K free steps from every start state, then a restart.
 func VerifC04History() {
 	p := verifChoice("prefix", len(vcPrefixes))
-	k, kinds := 3, int(stRestart)+1
+	k, kinds := 2, int(stRestart)+1
 	if verifTier() > 0 {
-		k, kinds = 4, int(stTouch)+1
+		k = 4
 	}
 	vcRun(vcPrefixes[p], k, kinds)
+}
+
+// VerifC04HistoryLong (thorough tier): longer histories over writes and snapshots with / without
+// Persist only.
+func VerifC04HistoryLong() {
+	p := verifChoice("prefix", len(vcPrefixes))
+	vcRun(vcPrefixes[p], 5, int(stSnapSkip)+1)
 }
 
 // VerifC04Faults: the rarer snapshot outcomes (failed Persist, busy checkpoint, death at Close, a
 // LOAD racing with Persist) and the touched database file, shorter histories.
 func VerifC04Faults() {
 	p := verifChoice("prefix", len(vcPrefixes))
-	k := 2
+	k := 1
 	if verifTier() > 0 {
 		k = 3
 	}
